@@ -1,6 +1,7 @@
 package utils
 
 import (
+	"sync"
 	"sync/atomic"
 	"time"
 )
@@ -29,6 +30,7 @@ var (
 const length = int64(64)
 
 type Yeast struct {
+	mu   sync.Mutex // makes the compare-and-advance of prev/seed in Yeast one step
 	seed atomic.Int64
 	prev atomic.Value
 }
@@ -59,6 +61,9 @@ func (y *Yeast) Decode(str string) int64 {
 }
 
 func (y *Yeast) Yeast() string {
+	y.mu.Lock()
+	defer y.mu.Unlock()
+
 	now := y.Encode(time.Now().UnixMilli())
 
 	prev, _ := y.prev.Load().(string)
